@@ -582,7 +582,7 @@ impl<'a> Interp<'a> {
         if let Some(k) = &key {
             op.insert("key".into(), json!(k));
         }
-        for f in ["entry", "algo", "chunks", "flush_after", "repoll", "stop_after", "end", "bufs", "check", "mid_after", "fully", "reads", "clock_at_commit", "cancel_polls", "abandon_chunks", "write_all"] {
+        for f in ["entry", "algo", "chunks", "flush_after", "repoll", "stop_after", "end", "bufs", "check", "mid_after", "fully", "reads", "clock_at_commit", "cancel_polls", "abandon_chunks", "write_all", "vectored"] {
             if let Some(v) = st.get(f) {
                 op.insert(f.into(), v.clone());
             }
@@ -1420,6 +1420,10 @@ impl<'a> Interp<'a> {
         let path = if let Some(a) = e.get("content") {
             let s = self.addr(a);
             Some(hash::content_path(&self.cache, &s))
+        } else if let Some(k) = e.get("bucket_sibling").and_then(|k| k.as_str()) {
+            let mut p = hash::bucket_path(&self.cache, k).into_os_string();
+            p.push(e.get("suffix").and_then(|x| x.as_str()).unwrap_or(".lock"));
+            Some(PathBuf::from(p))
         } else if let Some(k) = e.get("bucket") {
             let key = if let Some(i) = k.as_u64() { self.sc["keys"][i as usize].as_str().unwrap_or("").to_string() } else { k.as_str().unwrap_or("").to_string() };
             Some(hash::bucket_path(&self.cache, &key))
@@ -1537,6 +1541,28 @@ impl<'a> Interp<'a> {
                     }
                 }
                 "mkdir" => std::fs::create_dir_all(&path),
+                "toplevel_symlink" => {
+                    // one of the cache's top-level directories lives elsewhere (moved to a bigger disk and linked back)
+                    let tgt = PathBuf::from(e["target"].as_str().unwrap_or(""));
+                    std::fs::create_dir_all(&tgt)?;
+                    if let Some(d) = path.parent() {
+                        std::fs::create_dir_all(d)?;
+                    }
+                    match std::fs::symlink_metadata(&path) {
+                        Ok(m) if m.file_type().is_symlink() => return Ok(()),
+                        Ok(m) if m.is_dir() => {
+                            // move what is there
+                            for ent in std::fs::read_dir(&path)? {
+                                let ent = ent?;
+                                std::fs::rename(ent.path(), tgt.join(ent.file_name()))?;
+                            }
+                            std::fs::remove_dir(&path)?;
+                        }
+                        Ok(_) => std::fs::remove_file(&path)?,
+                        Err(_) => {}
+                    }
+                    std::os::unix::fs::symlink(&tgt, &path)
+                }
                 "dir_symlink" => {
                     if let Some(d) = path.parent() {
                         std::fs::create_dir_all(d)?;
@@ -1607,7 +1633,7 @@ impl<'a> Interp<'a> {
         }
         let after = std::fs::read(&path).ok();
         let changed = before != after;
-        if noop || (!changed && act != "noop_mark_damaged" && act != "mkdir" && act != "dir_symlink" && act != "symlink_loop") {
+        if noop || (!changed && act != "noop_mark_damaged" && act != "mkdir" && act != "dir_symlink" && act != "toplevel_symlink" && act != "symlink_loop") {
             self.probe("env_step_noop");
         } else {
             self.fault(&format!("{}{}", if st.get("content").is_some() { "content." } else if st.get("bucket").is_some() { "bucket." } else { "fs." }, act.trim_end_matches("_frac")));
